@@ -219,14 +219,10 @@ _LINK_ID = re.compile("\x1b\\]8;id=([^;\x1b]*);")
 
 
 def _normalise_link_ids(text):
-    """OSC 8 ``id=`` parameters are random per Style object (time + randint): number them in order of first
-    appearance, so that two runs of the same history compare equal exactly when everything else is equal."""
-    seen = {}
-
-    def repl(m):
-        return "\x1b]8;id=#%d;" % seen.setdefault(m.group(1), len(seen))
-
-    return _LINK_ID.sub(repl, text)
+    """OSC 8 ``id=`` parameters are random per Style object (time + randint, regenerated by
+    ``Style.without_color`` for every rendered buffer under no_color): they are not part of "exactly as it
+    would have been written" and are blanked before two runs of the same history are compared."""
+    return _LINK_ID.sub("\x1b]8;id=#;", text)
 
 
 def _cells_compare(file_text, styled, config):
